@@ -562,6 +562,8 @@ def check(prop_id, spec, tier, specdir):
     t0 = time.time()
     seed = int(os.environ.get("VERIF_SEED", "0") or 0)
     jobs = spec.jobs(tier)
+    if os.environ.get("VERIF_ONLY"):     # development aid: run only the jobs whose name matches (evidence then goes to replay/)
+        jobs = [j for j in jobs if re.search(os.environ["VERIF_ONLY"], j.name)]
     meta = spec.META
     results = run_jobs(jobs, specdir)
     known = load_known()
@@ -692,7 +694,7 @@ def check(prop_id, spec, tier, specdir):
           "assumptions": meta.get("assumptions", []) + COMMON_ASSUMPTIONS,
           "wall_s": round(time.time() - t0, 1), "violations": len(violations)}
     # evidence/ describes /repo itself; runs against another checkout (selftests, seeded changes) write elsewhere
-    evdir = os.path.join(VERIF, "evidence") if os.path.realpath(REPO) == "/repo" else os.path.join(VERIF, "replay", "evidence-other-checkout")
+    evdir = os.path.join(VERIF, "evidence") if (os.path.realpath(REPO) == "/repo" and not os.environ.get("VERIF_ONLY")) else os.path.join(VERIF, "replay", "evidence-other-checkout")
     os.makedirs(evdir, exist_ok=True)
     json.dump(ev, open(os.path.join(evdir, prop_id + ".json"), "w"), indent=1)
     # clean scratch
